@@ -202,6 +202,11 @@ def c03_catalogue(quick):
            scenario('crash-flaky', [U(1, links=[2, 3]), U(2, kind='script', seq=['error500', 'page'], links=[]), U(3)],
                     dict(tries=3), N=1)]
     if not quick:
+        # more start URLs than one import batch (1000): a kill between two import transactions
+        many = scenario('crash-many-start-urls', [U(i, path='/s%04d' % i) for i in range(1, 1004)], N=1,
+                        start=tuple(range(1, 1004)))
+        many['crash_window'] = 'startup'
+        out.append(many)
         diamond = [U(1, links=[2, 3]), U(2, links=[4]), U(3, links=[5]), U(4, links=[6]), U(5, links=[4]), U(6)]
         pr = [U(1, links=[2, dict(to=3, inline=1)]), U(2, links=[dict(to=4, inline=1), 5]), U(3), U(4), U(5)]
         out += [scenario('crash-diamond-N2', diamond, N=2), scenario('crash-diamond-N3', diamond, N=3),
